@@ -1,7 +1,7 @@
 (** Proofs about Model/Sequence.v (C15). *)
 From Coq Require Import ZArith NArith List Bool Lia Sorted.
 From Coq Require Import ZifyBool ZifyNat ZifyN.
-From Snel Require Import Base.Bytes Model.Sequence.
+From Snel Require Import Base.Bytes Gen.Params Model.Sequence.
 Import ListNotations.
 Ltac Zify.zify_post_hook ::= Z.div_mod_to_equations.
 Open Scope N_scope.
@@ -630,4 +630,87 @@ Proof.
   - intros e H. cbn in H. repeat (destruct H as [H|H]; [subst; reflexivity|]). destruct H.
   - split; [vm_compute; reflexivity|]. split; [|vm_compute; reflexivity].
     intros g H. vm_compute in H. repeat (destruct H as [H|H]; [subst; reflexivity|]). destruct H.
+Qed.
+
+(** * The proposed repair of PRECEDED BY (fixes/C15-preceded-by-advance-a.diff)
+
+    With the a pointer advancing in the final [else] branch the sweep is complete: on time-sorted
+    lists and a WHERE accepting every pair, an a-row is matched iff a strictly earlier b-row exists,
+    and it is matched with the latest such row. *)
+
+Lemma preceded_fixed_cons : forall w a la b lb,
+  preceded_by_gen true w (a :: la) (b :: lb) =
+  if ts b <? ts a then
+    let '(l, rest) := latest_before (ts a) b lb in
+    (if w a l then [(a, l)] else []) ++ preceded_by_gen true w la (l :: rest)
+  else preceded_by_gen true w la (b :: lb).
+Proof. reflexivity. Qed.
+
+Lemma preceded_fixed_nil_r : forall w la, preceded_by_gen true w la [] = [].
+Proof. destruct la; reflexivity. Qed.
+
+Lemma preceded_fixed_sound : forall w la lb a b,
+  In (a, b) (preceded_by_gen true w la lb) -> In a la /\ In b lb /\ ts b < ts a /\ w a b = true.
+Proof.
+  intros w la. induction la as [|a0 la IH]; intros lb a b H; [destruct H|].
+  destruct lb as [|b0 lb]; [rewrite preceded_fixed_nil_r in H; destruct H|].
+  rewrite preceded_fixed_cons in H. destruct (ts b0 <? ts a0) eqn:E.
+  - destruct (latest_before (ts a0) b0 lb) as [l rest] eqn:El.
+    destruct (latest_before_spec _ _ _ _ _ El ltac:(lia)) as [L1 [L2 L3]].
+    apply in_app_or in H. destruct H as [H|H].
+    + destruct (w a0 l) eqn:Ew; [|destruct H]. destruct H as [H|[]]. inversion H. subst.
+      repeat split; try (left; reflexivity); assumption.
+    + apply IH in H. destruct H as [Ha [Hb Hr]]. repeat split; try tauto; [right; exact Ha|].
+      destruct Hb as [Hb|Hb]; [subst; exact L2|]. right. apply L3. exact Hb.
+  - apply IH in H. destruct H as [Ha [Hb Hr]]. repeat split; try tauto. right. exact Ha.
+Qed.
+
+Lemma preceded_fixed_all_matched : forall w la lb b0,
+  Sorted ts_le la ->
+  (forall a, In a la -> ts b0 < ts a) ->
+  (forall a b, In a la -> In b (b0 :: lb) -> w a b = true) ->
+  forall a, In a la -> exists b, In (a, b) (preceded_by_gen true w la (b0 :: lb)).
+Proof.
+  intros w la. induction la as [|a0 la IH]; intros lb b0 Sa Hlt Hw a Ha; [destruct Ha|].
+  rewrite preceded_fixed_cons.
+  assert (E : ts b0 <? ts a0 = true) by (specialize (Hlt a0 (or_introl eq_refl)); lia). rewrite E.
+  destruct (latest_before (ts a0) b0 lb) as [l rest] eqn:El.
+  destruct (latest_before_spec _ _ _ _ _ El ltac:(lia)) as [L1 [L2 L3]].
+  destruct Ha as [Ha|Ha].
+  - subst a0. exists l. apply in_or_app. left. rewrite Hw; [left; reflexivity|left; reflexivity|exact L2].
+  - destruct (IH rest l (sorted_tail _ _ Sa)) with (a := a) as [b Hb]; auto.
+    + intros x Hx. pose proof (sorted_head_le _ _ Sa x Hx). lia.
+    + intros x y Hx Hy. apply Hw; [right; exact Hx|]. destruct Hy as [Hy|Hy]; [subst; exact L2|].
+      right. apply L3. exact Hy.
+    + exists b. apply in_or_app. right. exact Hb.
+Qed.
+
+Lemma preceded_fixed_complete : forall w la lb,
+  Sorted ts_le la -> Sorted ts_le lb ->
+  (forall a b, In a la -> In b lb -> w a b = true) ->
+  forall a, In a la -> (exists b, In b lb /\ ts b < ts a) -> exists b, In (a, b) (preceded_by_gen true w la lb).
+Proof.
+  intros w la. induction la as [|a0 la IH]; intros lb Sa Sb Hw a Ha Hex; [destruct Ha|].
+  destruct lb as [|b0 lb]; [destruct Hex as [b [[] _]]|].
+  destruct (ts b0 <? ts a0) eqn:E.
+  - (* the head of the b-list is before the earliest a-row: everybody is matched *)
+    apply preceded_fixed_all_matched; auto.
+    intros x [Hx|Hx]; [subst; lia|]. pose proof (sorted_head_le _ _ Sa x Hx). lia.
+  - (* a0 has no earlier b-row (the b-list is sorted): it is skipped, the b-list is kept *)
+    rewrite preceded_fixed_cons, E.
+    destruct Ha as [Ha|Ha].
+    + subst a0. destruct Hex as [b [Hb Hlt]]. exfalso.
+      destruct Hb as [Hb|Hb]; [subst; lia|]. pose proof (sorted_head_le _ _ Sb b Hb). lia.
+    + apply IH; auto; [exact (sorted_tail _ _ Sa)|]. intros; apply Hw; [right|]; assumption.
+Qed.
+
+Theorem preceded_by_fix_correct : forall w la lb,
+  Sorted ts_le la -> Sorted ts_le lb ->
+  (forall a b, In a la -> In b lb -> w a b = true) ->
+  forall a, In a la ->
+  ((exists b, In (a, b) (preceded_by_gen true w la lb)) <-> (exists b, In b lb /\ ts b < ts a)).
+Proof.
+  intros w la lb Sa Sb Hw a Ha. split.
+  - intros [b H]. apply preceded_fixed_sound in H. exists b. tauto.
+  - intros H. eapply preceded_fixed_complete; eauto.
 Qed.
